@@ -224,7 +224,7 @@ func streamC06(h *H) {
 	k := crypto.NewRandomKey()
 
 	// ---------------------------------------------------------------- rt
-	nrt := h.N(300, 20000)
+	nrt := h.N(300, 6000)
 	for i := 0; i < nrt; i++ {
 		var n int
 		switch h.Intn(10) {
@@ -273,7 +273,7 @@ func streamC06(h *H) {
 	}
 
 	// ---------------------------------------------------------------- mut
-	nmut := h.N(3000, 200000)
+	nmut := h.N(3000, 60000)
 	var base []byte
 	var baseBlobs pack.Blobs
 	var baseHdr uint32
@@ -384,7 +384,7 @@ func streamC06(h *H) {
 	}
 
 	// ---------------------------------------------------------------- craft
-	ncr := h.N(1500, 60000)
+	ncr := h.N(1500, 20000)
 	for i := 0; i < ncr; i++ {
 		n := 1 + h.Intn(6)
 		if h.Intn(8) == 0 {
@@ -468,7 +468,7 @@ func streamC06(h *H) {
 	}
 
 	// ---------------------------------------------------------------- fin (shim: arbitrary packer contents)
-	nfin := h.N(300, 10000)
+	nfin := h.N(300, 5000)
 	for i := 0; i < nfin; i++ {
 		n := 1 + h.Intn(5)
 		var bl []pack.Blob
